@@ -133,6 +133,7 @@ type World struct {
 	OnReply       func(*ClientReq, *ClientReply)
 	OnClientEvent func(*Client, *frame.Frame)
 	ResultFor     func(*Attempt) message.Message
+	ReplyMod      func(*Attempt, *frame.Frame)
 	OnAttempt     func(*Attempt)
 	OnStep        func() // online invariants, evaluated after every settle
 	DialPolicy    func(n *Node) simnet.DialKind
